@@ -14,15 +14,25 @@ const TYPES: [(&str, usize, usize, bool); 13] = [
 
 struct Probe { kind: String, desc: String, req: String, text: String, tail: String }
 
-fn build(fields: &[(usize, &str, usize, usize, bool)], nvar: usize) -> (String, String) {
+fn build(fields: &[(usize, &str, usize, usize, bool)], nvar: usize) -> (String, String) { build_rm(fields, nvar, &[]) }
+
+/// `removals`: (variant at whose start the datum is removed, index of the datum in `fields`)
+fn build_rm(fields: &[(usize, &str, usize, usize, bool)], nvar: usize, removals: &[(usize, usize)]) -> (String, String) {
     // fields: (variant in which it is added, type, size, align, uninit)
     let mut b = NativeRecordDefinitionBuilder::new(HostTypeResolver);
     let mut req = String::from("reset native 0 n\n");
     let mut n = 0;
+    let mut ids: std::collections::BTreeMap<usize, truc::record::definition::DatumId> = Default::default();
     for v in 0..nvar {
-        for f in fields.iter().filter(|f| f.0 == v) {
+        for (_, k) in removals.iter().filter(|r| r.0 == v) {
+            let id = ids[k];
+            b.remove_datum(id).unwrap();
+            writeln!(req, "rm {}", id).unwrap();
+        }
+        for (k, f) in fields.iter().enumerate().filter(|(_, f)| f.0 == v) {
             n += 1;
-            b.add_datum_override::<(), _>(format!("f{}", n), DatumDefinitionOverride { type_name: Some(f.1.to_string()), size: Some(f.2), align: Some(f.3), allow_uninit: Some(f.4) }).unwrap();
+            let id = b.add_datum_override::<(), _>(format!("f{}", n), DatumDefinitionOverride { type_name: Some(f.1.to_string()), size: Some(f.2), align: Some(f.3), allow_uninit: Some(f.4) }).unwrap();
+            ids.insert(k, id);
             writeln!(req, "add f{} {} {} {} {} override", n, f.1, f.2, f.3, if f.4 { 1 } else { 0 }).unwrap();
         }
         b.close_record_variant();
@@ -54,6 +64,23 @@ fn main() {
             if align > 1 { add("align", format!("{} recorded with alignment {} (real {}), variant {}", ty, align / 2, align, v), mk(size, align / 2, false)); }
             if copy { add("ok", format!("{} may stay uninitialised (Copy), variant {}", ty, v), mk(size, align, true)); }
             else { add("copy", format!("{} declared may-be-uninitialised but is not Copy, variant {}", ty, v), mk(size, align, true)); }
+        }
+    }
+    // a wrongly recorded datum that is removed again before the last variant: the earlier record types still use it
+    for (ty, size, align, copy) in [TYPES[2], TYPES[3], TYPES[8], TYPES[6], TYPES[5]] {
+        for (add_at, rm_at, nvar) in [(0usize, 1usize, 2usize), (1, 2, 3), (0, 1, 3)] {
+            let mut cases: Vec<(&str, String, (usize, &str, usize, usize, bool))> = vec![
+                ("ok", format!("{} recorded correctly, added in variant {} and removed in variant {}", ty, add_at, rm_at), (add_at, ty, size, align, false)),
+                ("size", format!("{} recorded with size {} (real {}), added in variant {} and removed in variant {}", ty, size + 1, size, add_at, rm_at), (add_at, ty, size + 1, align, false)),
+                ("align", format!("{} recorded with alignment {} (real {}), added in variant {} and removed in variant {}", ty, align * 2, align, add_at, rm_at), (add_at, ty, size, align * 2, false)),
+            ];
+            if align > 1 { cases.push(("align", format!("{} recorded with alignment {} (real {}), added in variant {} and removed in variant {}", ty, align / 2, align, add_at, rm_at), (add_at, ty, size, align / 2, false))); }
+            if !copy { cases.push(("copy", format!("{} declared may-be-uninitialised but is not Copy, added in variant {} and removed in variant {}", ty, add_at, rm_at), (add_at, ty, size, align, true))); }
+            for (kind, desc, f) in cases {
+                let fields = vec![(0usize, "P4", 4usize, 4usize, false), f, (nvar - 1, "P2", 2, 2, false)];
+                let (text, req) = build_rm(&fields, nvar, &[(rm_at, 1)]);
+                probes.push(Probe { kind: kind.into(), desc, req, text, tail: String::new() });
+            }
         }
     }
     // two data of the same type, one of them recorded wrongly (the other correctly): both must be guarded
